@@ -1,28 +1,30 @@
 #!/bin/bash
 # usage: seedverify.sh C01 a   -- confirms a sub-agent's seeded change in its scratch worktree and stores it under seeded/
-ID=$1; X=$2
-WT=/tmp/seed/wt_$ID; OUT=/tmp/seed/out_$ID
+# optional 3rd argument: name under which it is stored (default: same as X); SEEDROOT (default /tmp/seed) = agents' root
+ID=$1; X=$2; NAME=${3:-$2}
+SEEDROOT=${SEEDROOT:-/tmp/seed}
+WT=$SEEDROOT/wt_$ID; OUT=$SEEDROOT/out_$ID
 cd $WT || exit 2
 git checkout -q -- . ; git clean -fdq
 git apply $OUT/patch_$X.diff || { echo "PATCH DOES NOT APPLY"; exit 2; }
 python3 /verif/tools/baseline.py $WT | head -3; B=$?
-PYTHONPATH=$WT timeout 600 /venv/bin/python $OUT/demo_$X.py > /tmp/seed/demo_with.log 2>&1; W=$?
+PYTHONPATH=$WT timeout 600 /venv/bin/python $OUT/demo_$X.py > $SEEDROOT/demo_with.log 2>&1; W=$?
 git checkout -q -- . ; git clean -fdq
-PYTHONPATH=$WT timeout 600 /venv/bin/python $OUT/demo_$X.py > /tmp/seed/demo_without.log 2>&1; WO=$?
+PYTHONPATH=$WT timeout 600 /venv/bin/python $OUT/demo_$X.py > $SEEDROOT/demo_without.log 2>&1; WO=$?
 # also on the current /repo (with fix: commits)
-PYTHONPATH=/repo timeout 600 /venv/bin/python $OUT/demo_$X.py > /tmp/seed/demo_repo.log 2>&1; R=$?
+PYTHONPATH=/repo timeout 600 /venv/bin/python $OUT/demo_$X.py > $SEEDROOT/demo_repo.log 2>&1; R=$?
 echo "$ID/$X: demo with patch exit=$W (want 1), without exit=$WO (want 0), on /repo HEAD exit=$R (want 0)"
 if [ $W = 1 ] && [ $WO = 0 ]; then
-  D=/verif/seeded/${ID}_$X; mkdir -p $D
+  D=/verif/seeded/${ID}_$NAME; mkdir -p $D
   cp $OUT/patch_$X.diff $D/patch.diff; cp $OUT/demo_$X.py $D/demo.py
-  python3 - "$ID" "$X" "$OUT" "$D" "$R" <<'PY'
+  python3 - "$ID" "$X" "$OUT" "$D" "$R" "$NAME" <<'PY'
 import json,sys
-id,x,out,d,r=sys.argv[1:]
+id,x,out,d,r,name=sys.argv[1:]
 m=json.load(open(out+'/meta.json'))
 ch=[c for c in m['changes'] if c['name']==x][0]
-json.dump({'property':id,'name':x,'summary':ch.get('summary'),'needs':ch.get('needs'),
+json.dump({'property':id,'name':name,'summary':ch.get('summary'),'needs':ch.get('needs'),
  'agent_ran':ch.get('ran'),
- 'confirmed':'tools/seedverify.sh %s %s: patch applies to the pinned commit in a scratch worktree; tools/baseline.py reports all 319 pinned tests passing with it; demo.py exits 1 (FAIL) with the patch and 0 (PASS) without; demo on /repo HEAD exit=%s'%(id,x,r)},open(d+'/meta.json','w'),indent=1)
+ 'confirmed':'tools/seedverify.sh %s %s: patch applies to the commit of its scratch worktree; tools/baseline.py reports all 319 pinned tests passing with it; demo.py exits 1 (FAIL) with the patch and 0 (PASS) without; demo on /repo HEAD exit=%s'%(id,x,r)},open(d+'/meta.json','w'),indent=1)
 PY
   echo stored $D
 fi
